@@ -81,3 +81,42 @@ def is_grouping(site):
 
 def decisions_on(path, pred):
     return [e for e in path.trace if e.k == "decision" and any(pred(x) for x in subterms(e.test))]
+
+
+def reached_by_site(ctx, mux_only=False):
+    """{site: functions the path enumeration enters from the subscribe function or a handler of the site}: the
+    handlers themselves, helpers they call, per-event functions chosen through a dispatch table, and handlers handed to
+    a shared operator template by its callers."""
+    key = ("reached", mux_only)
+    if key in ctx._cache:
+        return ctx._cache[key]
+    from ..model import valuations
+    from ..terms import KINDS
+    res = {}
+    for site in (ctx.mux_sites() if mux_only else ctx.sites):
+        out = res.setdefault(site, set())
+        out.add(site.subscribe_fn)
+        for sub in site.subscriptions:
+            for which, h in sub.handlers.items():
+                if h.how != "fn":
+                    continue
+                spec = h.spec
+                out.add(spec.fn)
+                if mux_only and which != "on_next":
+                    continue
+                kinds = KINDS if (site.ctor != "create" and which == "on_next") else (None,)
+                for kind in kinds:
+                    for cfg in valuations(ctx.space(spec)):
+                        for p in ctx.paths(spec, kind, cfg):
+                            for e in p.trace:
+                                if e.k == "inline":
+                                    out.add(e.fn)
+    ctx._cache[key] = res
+    return res
+
+
+def reached_functions(ctx, mux_only=False):
+    out = set()
+    for fns in reached_by_site(ctx, mux_only).values():
+        out |= fns
+    return out
